@@ -48,6 +48,18 @@ type writeRec struct {
 	ToClient string // the peer is the relayed address of this real client ("@c2" in the plan)
 }
 
+// realClients: the real clients in the order of the plan (never the order of the map: what is
+// started or closed in this order is part of the run).
+func (w *SrvWorld) realClients() []*RealClient {
+	var out []*RealClient
+	for _, c := range w.P.Clients {
+		if rc := w.Real[c.ID]; rc != nil {
+			out = append(out, rc)
+		}
+	}
+	return out
+}
+
 func (w *SrvWorld) startRealClient(spec ClientSpec) {
 	rc := &RealClient{W: w, Spec: spec, Addr: mustUDPAddr(spec.Addr)}
 	w.Real[spec.ID] = rc
@@ -236,7 +248,7 @@ func (w *SrvWorld) checkE2E() {
 		}
 		return "beyond-nonce-hour"
 	}
-	for _, rc := range w.Real {
+	for _, rc := range w.realClients() {
 		if rc.Stamp != 0 && rc.allocDone {
 			// C17 end to end
 			ok := rc.Err == nil
@@ -374,7 +386,7 @@ func (w *SrvWorld) checkReleased(now int64) {
 	}
 	w.e2eMu.Lock()
 	open, closedLong := 0, 0
-	for _, rc := range w.Real {
+	for _, rc := range w.realClients() {
 		if rc.Relay == nil && rc.TAlloc == nil {
 			continue
 		}
@@ -398,7 +410,7 @@ func (w *SrvWorld) checkReleased(now int64) {
 		w.releaseReported = true
 		cause := "other"
 		w.Mon.mu.Lock()
-		for _, rc := range w.Real {
+		for _, rc := range w.realClients() {
 			if rc.Closed && w.Mon.Refresh0Err[ustr(rc.Addr)] == 438 {
 				cause = "refresh0-answered-438-not-retried"
 			}
